@@ -219,6 +219,21 @@ impl Channel {
             let dur = metrics.calculate_duration(&msg, rng_ref);
             let busy = metrics.calculate_busy(&msg);
 
+            // The exit event is scheduled before the unbusy notification. If both
+            // carry the same timestamp (no latency, no jitter) the message thus leaves
+            // the channel before the unbusy notification starts the next queued message,
+            // whose own exit event could otherwise (zero transmission time) be
+            // dispatched first and overtake this message.
+            let next_event_time = SimTime::now() + dur;
+
+            sink.add(
+                NetEvents::MessageExitingConnection(MessageExitingConnection {
+                    con: via.clone(),
+                    msg,
+                }),
+                next_event_time,
+            );
+
             if busy != Duration::ZERO {
                 let transmissin_finish = SimTime::now() + busy;
 
@@ -232,16 +247,6 @@ impl Channel {
                     transmissin_finish,
                 );
             }
-
-            let next_event_time = SimTime::now() + dur;
-
-            sink.add(
-                NetEvents::MessageExitingConnection(MessageExitingConnection {
-                    con: via.clone(),
-                    msg,
-                }),
-                next_event_time,
-            );
 
             // must break iteration,
             // but not perform on-module handling
